@@ -194,3 +194,25 @@ def r5(c):
 def r6(c):
     from rules import c05
     c05.r7(c)
+
+
+@rule('C11', 'R11.7', 'the id sequence belongs to the channel, not to a connection: the counter is only ever advanced (TxId::next), never re-assigned after construction')
+def r7(c):
+    P = c.P
+    writers = []
+    for bb in P.all_bodies(crate='rodbus'):
+        if bb.kind in ('Static', 'Const') or bb.is_promoted:
+            continue
+        for i, s_ in bb.assigns():
+            pl = s_['pl']
+            if pl['p'] and pl['p'][-1].endswith(':tx_id') and len(pl['p']) >= 1 and not (s_['rv']['r'] == 'agg'):
+                base = q.sem(bb, {'l': pl['l'], 'p': pl['p'][:-1]})
+                if q.sem_is_name(bb, base, 'self'):
+                    writers.append('%s:%s' % (P.logical_name(bb), s_.get('line')))
+        for cs in bb.calls():
+            if cs.dest['p'] and cs.dest['p'][-1].endswith(':tx_id') and 'ClientLoop' in (bb.self_ty or bb.path):
+                writers.append('%s:%s' % (P.logical_name(bb), cs.line))
+    c.ob('tx_id/no-reassignment', not writers, 'no statement assigns `self.tx_id` (a session restart keeps counting where the last session stopped: a late reply of the old connection can never match the first request of the new one)', str(writers))
+    a = P.adt(CL)
+    ty = {f['name']: f['ty'] for v in a['variants'] for f in v['fields']}
+    c.ob('tx_id/field', ty.get('tx_id', '').endswith('TxId'), 'ClientLoop owns the TxId counter', ty.get('tx_id', ''))
